@@ -346,6 +346,11 @@ class GalliaBaseModel(BaseCommand, ABC):
                         )
                     )
 
+        # Remember the declared field infos, see __pydantic_init_subclass__()
+        cls._declared_arg_field_infos = {
+            attribute: info for attribute, info in vars(cls).items() if isinstance(info, ArgFieldInfo)
+        }
+
         for attribute, info in vars(cls).items():
             # Attribute specific annotation takes precedence
             if isinstance(info, ArgFieldInfo) and info.group is None:
@@ -379,6 +384,31 @@ class GalliaBaseModel(BaseCommand, ABC):
                         description,
                         info.default,
                     )
+
+    @classmethod
+    def __pydantic_init_subclass__(cls, **kwargs: Any) -> None:
+        super().__pydantic_init_subclass__(**kwargs)
+
+        # Newer pydantic versions merge the field info of a field whose type is an Annotated alias
+        # (AutoInt, Ranges, Idempotent[...], ...) into a plain FieldInfo. This drops the CLI and config
+        # related attributes (positional, short, config_section, ...) of the declared ArgFieldInfo.
+        # Restore the declared type in this case.
+        restored = False
+
+        for attribute, declared in cls.__dict__.get("_declared_arg_field_infos", {}).items():
+            merged = cls.model_fields.get(attribute)
+
+            if merged is None or isinstance(merged, ArgFieldInfo):
+                continue
+
+            info = declared._copy()
+            info.annotation = merged.annotation
+            info.metadata = merged.metadata
+            cls.model_fields[attribute] = info
+            restored = True
+
+        if restored:
+            cls.model_rebuild(force=True)
 
     @staticmethod
     def registry() -> dict[str, tuple[str, Any]]:
